@@ -855,7 +855,8 @@ class PauliStringLinear(PauliString):
         Returns:
             True if the linear combination is zero, False otherwise.
         """
-        return all(abs(coeff) < 1e-12 for coeff, _ in self)
+        # Collect equal strings first: terms may cancel each other
+        return all(abs(coeff) < 1e-12 for coeff, _ in self.simplify().combinations)
 
     def norm(self) -> float:
         """
